@@ -99,6 +99,63 @@ def kids_of(t):
   return t[-1] if t[0] in ('dict', 'list', 'obj') else None
 
 
+# Custom hyper primitives the harness instantiates: (class name, well-behaved?, genomes of its own range).
+# Mirrors: the Python classes in `_setup_pg`, `hookDec` / `hookEnc` in lean/Driver/C13.lean.
+HOOKS = [
+    ('C13StrId', True, ['', 'a', 'ab', 'b c', ' pad ']),            # value = genome
+    ('C13IntSeq', True, ['', '1', '1,2', '12,-3,4']),      # '1,2' <-> [1, 2]
+    ('Evolvable', True, ['{"x": 1, "y": [1, 2]}', '{"x": 2, "y": [1, 2]}', '{"x": 1, "y": [1, 2, 3]}']),
+    ('C13BadEnc', False, ['a', 'b']),                      # custom_encode appends '!'
+    ('C13Raises', False, ['ok', 'xbad']),                  # custom_decode raises on genomes starting with x
+    ('C13NoEncode', False, ['a']),                         # custom_encode not implemented
+    ('C13Impure', False, ['a']),                           # custom_decode returns a placeholder
+]
+EVO_INITIAL = {'x': 1, 'y': [1, 2]}
+
+
+def evo_transform(location, value, parent):   # node_transform of the evolvable value (module level: serialisable)
+  if isinstance(value, int):
+    return value + 1
+  return value
+
+
+def json_to_tmpl(j):
+  if j is None:
+    return ['const', ['none']]
+  if isinstance(j, int):
+    return ['const', ['int', j]]
+  if isinstance(j, str):
+    return ['const', ['str', j]]
+  if isinstance(j, list):
+    return ['list', [json_to_tmpl(x) for x in j]]
+  return ['dict', list(j.keys()), [json_to_tmpl(x) for x in j.values()]]
+
+
+def hook_value(cid, g):
+  """What the hook decodes genome `g` to (JSON value form), harness-side mirror."""
+  if cid == 1:
+    return ['list', [['const', ['int', int(x)]] for x in g.split(',') if x]]
+  if cid == 2:
+    return json_to_tmpl(json.loads(g))
+  if cid == 6:
+    return ['choice', 9000, True, 1, [['const', ['int', 1]], ['const', ['int', 2]]], True, False]
+  return ['const', ['str', g]]
+
+
+def custom_cids(t, acc=None):
+  acc = set() if acc is None else acc
+  k = t[0]
+  if k in ('dict', 'list', 'obj'):
+    for c in t[-1]:
+      custom_cids(c, acc)
+  elif k == 'choice':
+    for c in t[4]:
+      custom_cids(c, acc)
+  elif k == 'custom':
+    acc.add(t[2])
+  return acc
+
+
 def is_active(t, W):
   return W is None or t[1] in W
 
@@ -112,7 +169,7 @@ def prims(t, W):
     return [p for c in t[-1] for p in prims(c, W)]
   if k == 'choice':
     return [t] if is_active(t, W) else [p for c in t[4] for p in prims(c, W)]
-  if k == 'floatv':
+  if k in ('floatv', 'custom'):
     return [t] if is_active(t, W) else []
   raise AssertionError(t)
 
@@ -127,7 +184,7 @@ def all_tags(t, acc=None):
     acc.append(t[1])
     for c in t[4]:
       all_tags(c, acc)
-  elif k == 'floatv':
+  elif k in ('floatv', 'custom'):
     acc.append(t[1])
   return acc
 
@@ -170,7 +227,7 @@ def size_of_prims(ps, W, cap=10 ** 9):
 
 
 def size_of_prim(p, W, cap):
-  if p[0] == 'floatv':
+  if p[0] in ('floatv', 'custom'):
     return None
   _, _, _, k, cands, distinct, sorted_ = p
   ss = [size_of_prims(prims(c, W), W, cap) for c in cands]
@@ -209,6 +266,9 @@ def rand_space_dna(ps, W, rng):
 
 
 def rand_prim_dna(p, W, rng):
+  if p[0] == 'custom':
+    gs = HOOKS[p[2]][2]
+    return [['s', gs[rng.below(len(gs))]], []]
   if p[0] == 'floatv':
     lo, hi = to_float(*p[2]), to_float(*p[3])
     c = rng.below(5) if not isinstance(rng, _Extreme) else rng.end
@@ -289,6 +349,13 @@ def rand_value(t, W, rng, perturb):
     if hit():
       return ['const', ['int', 3]]
     return t[:-1] + [kids]
+  if k == 'custom':
+    if not is_active(t, W):
+      return t
+    gs = HOOKS[t[2]][2]
+    if hit():
+      return ['const', ['int', 42]]
+    return hook_value(t[2], gs[rng.below(len(gs))])
   if k == 'floatv':
     if not is_active(t, W):
       return t
@@ -343,6 +410,8 @@ def heads(t, W):
     return [['node', label_of(t), len(t[-1])]]
   if k == 'floatv':
     return [['float', t[2], t[3]]] if is_active(t, W) else [['inactive', t[1]]]
+  if k == 'custom':
+    return [['any']] if is_active(t, W) else [['inactive', t[1]]]
   if not is_active(t, W):
     return [['inactive', t[1]]]
   if t[2]:
@@ -353,6 +422,12 @@ def heads(t, W):
 def match_head(t, h, W):
   """Could template `t` encode a value whose head is `h`? (over-approximation)"""
   k = t[0]
+  if k == 'custom':
+    return True if is_active(t, W) else h in (['inactive', t[1]], ['any'])
+  if h == ['any']:
+    if k == 'choice' and is_active(t, W) and t[2]:
+      return any(match_head(c, h, W) for c in t[4])
+    return True
   if k == 'const':
     if h[0] == 'atom':
       return py_eq(t[1], h[1])
@@ -380,7 +455,7 @@ def match_head(t, h, W):
 def head_distinct(t, W):
   """No earlier candidate of an active choice matches a head of a later one, recursively."""
   k = t[0]
-  if k in ('const', 'floatv'):
+  if k in ('const', 'floatv', 'custom'):
     return True
   if k in ('dict', 'list', 'obj'):
     return all(head_distinct(c, W) for c in t[-1])
@@ -409,6 +484,10 @@ def shape_ok(t, v, W):
       return v == t
     return (v[0] == 'const' and v[1][0] == 'flt'
             and num_le(t[2], v[1][1:]) and num_le(v[1][1:], t[3]))
+  if k == 'custom':
+    if not is_active(t, W):
+      return v == t
+    return not all_tags(v)                       # an opaque value without placeholders
   _, tag, one, kk, cands, distinct, sorted_ = t
   if not is_active(t, W):
     return (v[0] == 'choice' and v[1:4] == t[1:4] and v[5:] == t[5:] and len(v[4]) == len(cands)
@@ -417,6 +496,46 @@ def shape_ok(t, v, W):
     return any(shape_ok(c, v, W) for c in cands)
   return (v[0] == 'list' and len(v[1]) == kk
           and all(any(shape_ok(c, x, W) for c in cands) for x in v[1]))
+
+
+def in_hook_range(ps, W, d):
+  """For a DNA that `validate` accepts for the decision points `ps`: every custom node is a childless genome
+  of its own hook's range (the model's `validG W.dom`)."""
+  if len(ps) == 0:
+    return True
+  ds = [d] if len(ps) == 1 else d[1]
+  if len(ds) != len(ps):
+    return False
+  return all(in_hook_range_prim(p, W, x) for p, x in zip(ps, ds))
+
+
+def in_hook_range_prim(p, W, d):
+  v, cs = d
+  if p[0] == 'custom':
+    return v is not None and v[0] == 's' and not cs and v[1] in HOOKS[p[2]][2]
+  if p[0] == 'floatv':
+    return True
+  cands, k = p[4], p[3]
+  subs = [d] if k == 1 else cs
+  for sd in subs:
+    if sd[0] is None or sd[0][0] != 'i' or sd[0][1] >= len(cands):
+      return False
+    if not in_hook_range(prims(cands[sd[0][1]], W), W, norm(None, sd[1])):
+      return False
+  return True
+
+
+def first_diff(a, b):
+  """The values at the first node (pre-order) where two DNAs differ, or None."""
+  if a[0] != b[0]:
+    return a[0], b[0]
+  for x, y in zip(a[1], b[1]):
+    d = first_diff(x, y)
+    if d:
+      return d
+  if len(a[1]) != len(b[1]):
+    return ('children', len(a[1])), ('children', len(b[1]))
+  return None
 
 
 def placeholders_left(v, W):
@@ -514,7 +633,9 @@ class TmplGen:
     cand_ty = ty
     if not one:
       cand_ty = 'int' if ty == 'list_int' else 'any'
+    self.in_choice = getattr(self, 'in_choice', 0) + 1
     cands = [self.gen(depth - 1, cand_ty, in_cand=True) for _ in range(n)]
+    self.in_choice -= 1
     if cand_ty == 'any' and r.chance(0.3):
       # a twin candidate: same fields and content, other class (A <-> D)
       for c in list(cands):
@@ -555,9 +676,16 @@ class TmplGen:
     if depth <= 0:
       return self.floatv() if r.chance(0.07) else self.const('any')
     k = r.weighted([(3, 'const'), (3, 'dict'), (2, 'list'), (2, 'A'), (1, 'B'), (1, 'C'), (1, 'D'), (2, 'E'),
-                    (1, 'F'), (5, 'oneof'), (3, 'manyof'), (1, 'floatv')])
+                    (1, 'F'), (5, 'oneof'), (3, 'manyof'), (1, 'floatv'), (2, 'custom')])
     if k == 'const':
       return self.const('any')
+    if k == 'custom':
+      # a CustomHyper subclass / pg.evolve value; ~15 % of them ill-behaved (contract-violating hooks)
+      cid = r.choice([3, 4, 5, 6]) if r.chance(0.15) else r.choice([0, 0, 1, 1, 2])
+      if cid == 2 and getattr(self, 'in_choice', 0):
+        cid = 0      # pg.evolve encodes *any* JSON-able value (floats as repr): kept out of candidate lists,
+                     # where values of sibling candidates are offered to it
+      return ['custom', self.fresh_tag(), cid]
     if k == 'floatv':
       return self.floatv()
     if k == 'oneof':
@@ -608,6 +736,21 @@ def int_in_float_slot(t, ty='any'):
   return False
 
 
+def custom_in_typed_slot(t, ty='any'):
+  """A custom hyper is bound to a typed field (directly or as a candidate): `CustomHyper.custom_apply`
+  cannot validate an opaque hook, so what the hook returns must fit the field — the user's obligation."""
+  k = t[0]
+  if k == 'custom':
+    return ty != 'any'
+  if k == 'obj':
+    return any(custom_in_typed_slot(c, fty) for c, (_, fty) in zip(t[3], CLASSES[t[1]][1]))
+  if k in ('dict', 'list'):
+    return any(custom_in_typed_slot(c, 'int' if ty == 'list_int' and k == 'list' else 'any') for c in t[-1])
+  if k == 'choice':
+    return any(custom_in_typed_slot(c, ty if t[2] else ('int' if ty == 'list_int' else 'any')) for c in t[4])
+  return False
+
+
 def tmpl_stats(t, acc, depth=0, in_cand=False):
   k = t[0]
   acc['depth'] = max(acc.get('depth', 0), depth)
@@ -624,6 +767,11 @@ def tmpl_stats(t, acc, depth=0, in_cand=False):
       tmpl_stats(c, acc, depth + 1, True)
   elif k == 'floatv':
     acc['floatv'] = acc.get('floatv', 0) + 1
+    if in_cand:
+      acc['nested-placeholder'] = acc.get('nested-placeholder', 0) + 1
+  elif k == 'custom':
+    name = 'custom:' + HOOKS[t[2]][0]
+    acc[name] = acc.get(name, 0) + 1
     if in_cand:
       acc['nested-placeholder'] = acc.get('nested-placeholder', 0) + 1
   return acc
@@ -656,7 +804,121 @@ def _setup_pg():
     cls = pg.members([(f, specs[ty]()) for f, ty in fields])(type('C13%s' % name, (pg.Object,), body))
     classes.append(cls)
   _PG.update(pg=pg, classes=classes)
+
+  genomes = {name: gs for name, _, gs in HOOKS}
+
+  class _Sweep(pg.hyper.CustomHyper):
+    """first_dna / next_dna / random_dna hooks: sweep / sample the class's own genomes."""
+
+    def next_dna(self, dna=None):
+      gs = genomes[type(self).__name__]
+      if dna is None:
+        return pg.DNA(gs[0])
+      i = gs.index(dna.value)
+      return pg.DNA(gs[i + 1]) if i + 1 < len(gs) else None
+
+    def random_dna(self, random_generator=None, previous_dna=None):
+      import random as _random
+      gs = genomes[type(self).__name__]
+      return pg.DNA((random_generator or _random).choice(gs))
+
+  class C13StrId(_Sweep):
+    def custom_decode(self, dna):
+      return dna.value
+
+    def custom_encode(self, value):
+      if not isinstance(value, str):
+        raise ValueError('StrId encodes strings')
+      return pg.DNA(value)
+
+  class C13IntSeq(_Sweep):
+    def custom_decode(self, dna):
+      return [int(x) for x in dna.value.split(',') if x != '']
+
+    def custom_encode(self, value):
+      if not isinstance(value, list) or not all(isinstance(x, int) and not isinstance(x, bool) for x in value):
+        raise ValueError('IntSeq encodes lists of ints')
+      return pg.DNA(','.join(str(x) for x in value))
+
+  class C13BadEnc(C13StrId):          # ill-behaved: encode is not the inverse of decode
+    def custom_encode(self, value):
+      if not isinstance(value, str):
+        raise ValueError('BadEnc encodes strings')
+      return pg.DNA(value + '!')
+
+  class C13Raises(C13StrId):          # ill-behaved: decode raises on genomes of its own range
+    def custom_decode(self, dna):
+      if dna.value.startswith('x'):
+        raise ValueError('bad genome')
+      return dna.value
+
+  class C13NoEncode(_Sweep):          # ill-behaved (for the inverse law): no custom_encode at all
+    def custom_decode(self, dna):
+      return dna.value
+
+  class C13Impure(_Sweep):            # ill-behaved: decode returns a placeholder
+    def custom_decode(self, dna):
+      return pg.oneof([1, 2], hints=9000)
+
+    def custom_encode(self, value):
+      return pg.DNA('a')
+
+  hook_classes = [C13StrId, C13IntSeq, None, C13BadEnc, C13Raises, C13NoEncode, C13Impure]
+  _PG.update(hook_classes=hook_classes)
   return _PG
+
+
+def make_custom(tag, cid):
+  P = _setup_pg()
+  pg = P['pg']
+  if cid == 2:
+    return pg.evolve(pg.Dict(x=1, y=pg.List([1, 2])), evo_transform, hints=tag)
+  return P['hook_classes'][cid](hints=tag)
+
+
+def custom_cid(v):
+  """cid of a custom hyper object (None if `v` is none)."""
+  P = _setup_pg()
+  pg = P['pg']
+  if isinstance(v, pg.hyper.Evolvable):
+    return 2
+  for cid, cls in enumerate(P['hook_classes']):
+    if cls is not None and type(v) is cls:
+      return cid
+  return None
+
+
+def hook_contract(cid):
+  """Which clauses of the hooks' contract (HooksLawful / HooksPlain in lean/PgModel/HyperSpec.lean)
+  the custom hyper `cid` violates on its own genomes, evaluated on the hooks alone."""
+  P = _setup_pg()
+  pg = P['pg']
+  h = make_custom(1, cid)
+  bad = []
+  for g in HOOKS[cid][2]:
+    try:
+      v = h.custom_decode(pg.DNA(g))
+    except Exception:            # pylint: disable=broad-except
+      _no_timeout()
+      bad.append('decode-raises')
+      continue
+    try:
+      vj = of_pg(v)
+      if all_tags(vj):
+        bad.append('decode-returns-placeholder')
+      v2 = h.custom_decode(pg.DNA(g))
+      if of_pg(v2) != vj:
+        bad.append('decode-not-deterministic')
+    except Unrepresentable:
+      pass
+    try:
+      d = h.custom_encode(v)
+      if not (isinstance(d, pg.DNA) and d.value == g and not d.children):
+        bad.append('encode-not-inverse')
+    except Exception:            # pylint: disable=broad-except
+      _no_timeout()
+      bad.append('encode-raises')
+  return sorted(set(bad))
 
 
 def derived_sig(obj, fields):
@@ -710,6 +972,8 @@ def to_pg(t, root=True):
     return P['classes'][t[1]](**{key: to_pg(c, False) for key, c in zip(t[2], t[3])})
   if k == 'floatv':
     return pg.floatv(to_float(*t[2]), to_float(*t[3]), hints=t[1])
+  if k == 'custom':
+    return make_custom(t[1], t[2])
   _, tag, one, kk, cands, distinct, sorted_ = t
   cs = [to_pg(c, False) for c in cands]
   if one:
@@ -742,6 +1006,11 @@ def of_pg(v):
             v.choices_distinct, v.choices_sorted]
   if isinstance(v, pg.hyper.Float):
     return ['floatv', v.hints, of_float(v.min_value), of_float(v.max_value)]
+  if isinstance(v, pg.hyper.CustomHyper):
+    cid = custom_cid(v)
+    if cid is None:
+      raise Unrepresentable(type(v).__name__)
+    return ['custom', v.hints, cid]
   if isinstance(v, dict):
     return ['dict', list(v.keys()), [of_pg(x) for x in v.values()]]
   if isinstance(v, list):
@@ -756,7 +1025,7 @@ def of_pg(v):
 def dna_to_pg(d):
   pg = _setup_pg()['pg']
   v = d[0]
-  value = None if v is None else (v[1] if v[0] == 'i' else to_float(v[1], v[2]))
+  value = None if v is None else (v[1] if v[0] in ('i', 's') else to_float(v[1], v[2]))
   return pg.DNA(value, [dna_to_pg(c) for c in d[1]])
 
 
@@ -768,6 +1037,8 @@ def dna_of_pg(dna):
     jv = ['f'] + of_float(v)
   elif isinstance(v, int):
     jv = ['i', v]
+  elif isinstance(v, str):
+    jv = ['s', v]
   else:
     raise Unrepresentable('dna value %r' % (v,))
   return [jv, [dna_of_pg(c) for c in dna.children]]
@@ -781,6 +1052,10 @@ def spec_of_pg(spec):
     return ['choices', spec.num_choices, [spec_of_pg(c) for c in spec.candidates], spec.distinct, spec.sorted]
   if isinstance(spec, pg.geno.Float):
     return ['float', of_float(spec.min_value), of_float(spec.max_value)]
+  if isinstance(spec, pg.geno.CustomDecisionPoint):
+    names = [name for name, _, _ in HOOKS]
+    if spec.hyper_type in names:
+      return ['custom', names.index(spec.hyper_type)]
   raise Unrepresentable(type(spec).__name__)
 
 
@@ -875,6 +1150,12 @@ class C13(Prop):
       ds += [mutate_dna(d, rng) for d in ds[:3]]
       case['dnas'] = ds
       case['bad_dnas'] = []
+    # dynamic evaluation: the flat placeholders of the template, requested one after the other by a function
+    flat = [q for q in prims(t, None) if q[0] != 'custom' and (q[0] == 'floatv' or not any(all_tags(c) for c in q[4]))]
+    if flat:
+      tl = ['list', flat]
+      case['trace'] = flat
+      case['trace_dna'] = rand_space_dna(prims(tl, W), W, rng)
     vals = [rand_value(t, W, rng, False) for _ in range(2)]
     vals += [rand_value(t, W, rng, True) for _ in range(3)]
     case['values'] = vals
@@ -890,6 +1171,9 @@ class C13(Prop):
     dnas = case['dnas']
     req = {'tmpl': case['tmpl'], 'where': case['where'], 'values': case.get('values', []),
            'stage2_limit': STAGE2_LIMIT, 'slots': bound_slots(case['tmpl'])}
+    if case.get('trace'):
+      req['trace'] = case['trace']
+      req['trace_dna'] = case['trace_dna']
     if dnas == 'all':
       req['dnas'] = 'all'
       req['bad_dnas'] = case.get('bad_dnas', [])
@@ -911,14 +1195,22 @@ class C13(Prop):
       hv = to_pg(case['tmpl'])
     except (TypeError, ValueError, KeyError) as e:
       return {'construct': err_name(e)}
+    if custom_in_typed_slot(case['tmpl']):
+      return {'construct': 'custom-in-typed-slot'}
     if of_pg(hv) != case['tmpl'] or int_in_float_slot(case['tmpl']):
       # a typed field converted a constant (int -> float): the JSON no longer describes the value
       return {'construct': 'coerced'}
     obs = {'unchanged': True, 'notes': []}
-    before = pg.to_json_str(hv)
+
+    def snapshot():
+      return pg.to_json_str(hv) + '|' + pg.format(hv, compact=True, python_format=False)
+    before = snapshot()
+    cids = sorted(custom_cids(case['tmpl']))
+    obs['hook_violations'] = {HOOKS[c][0]: hook_contract(c) for c in cids if hook_contract(c)}
+    obs['hook_sweeps_ok'] = all(self.hook_sweep_ok(c) for c in cids)
 
     def check_unchanged(what):
-      if pg.to_json_str(hv) != before:
+      if snapshot() != before:
         obs['unchanged'] = False
         obs['notes'].append('template changed by ' + what)
 
@@ -991,8 +1283,10 @@ class C13(Prop):
       rec = {}
       try:
         v = to_pg(vj)
-      except (TypeError, ValueError, KeyError) as e:
-        model['values'].append(None)      # value itself not constructible (typed object): skipped
+        if of_pg(v) != vj:
+          raise ValueError('coerced by a typed field')
+      except (TypeError, ValueError, KeyError, Unrepresentable) as e:
+        model['values'].append(None)      # value not constructible as described (typed object): skipped
         continue
       try:
         d = t.encode(v)
@@ -1033,7 +1327,61 @@ class C13(Prop):
         _no_timeout()
         obs['iter_error'] = err_name(e)
     obs['n_all'] = n_all
+    if case.get('trace'):
+      self._trace_equal = None
+      model['trace'] = self.trace(case, where)
+      obs['trace_equal'] = self._trace_equal
     return {'construct': 'ok', 'model': model, 'obs': obs}
+
+  def trace(self, case, where):
+    """pg.hyper.trace / DynamicEvaluationContext: a function requesting the flat placeholders in order."""
+    pg = _setup_pg()['pg']
+
+    def fn():
+      return [to_pg(q) for q in case['trace']]
+    out = {}
+    try:
+      ctx = pg.hyper.trace(fn, where=where)
+      out['spec'] = spec_of_pg(ctx.dna_spec)
+      # the same decisions through the template API
+      tt = pg.template(pg.List([to_pg(q) for q in case['trace']]), where)
+      try:
+        want = of_pg(tt.decode(dna_to_pg(case['trace_dna'])))
+      except Exception:          # pylint: disable=broad-except
+        _no_timeout()
+        want = None
+      try:
+        with ctx.apply(dna_to_pg(case['trace_dna'])):
+          res = fn()
+        out['dec'] = ['ok', ['list', [of_pg(x) for x in res]]]
+        got = out['dec'][1]
+      except Exception:          # pylint: disable=broad-except
+        _no_timeout()
+        out['dec'] = ['err']
+        got = None
+      self._trace_equal = spec_of_pg(tt.dna_spec()) == out['spec'] and got == want
+    except Exception as e:       # pylint: disable=broad-except
+      _no_timeout()
+      out = {'error': err_name(e)}
+    return out
+
+  def hook_sweep_ok(self, cid):
+    """first_dna / next_dna / random_dna of the custom hyper stay within its own genomes, and through the
+    DNASpec (`CustomDecisionPoint.first_dna/next_dna/random_dna`) give what the hooks give."""
+    import random as _random
+    pg = _setup_pg()['pg']
+    h = make_custom(1, cid)
+    gs = HOOKS[cid][2]
+    spec = pg.template(pg.Dict(a=h)).dna_spec()
+    if cid == 2:      # Evolvable: first_dna = the initial value, random_dna = a mutation of the previous DNA
+      # (Evolvable has no next_dna: sweeping it raises NotImplementedError by design)
+      r1 = pg.random_dna(spec, _random.Random(0))
+      r2 = h.random_dna(_random.Random(1), h.first_dna())
+      return (h.first_dna().value == gs[0] and r1.value == gs[0] and isinstance(r2.value, str)
+              and pg.eq(h.custom_decode(r2), pg.from_json_str(r2.value)))
+    swept = [d.value for d in spec.iter_dna()]
+    rnd = pg.random_dna(spec, _random.Random(3)).value
+    return swept == gs and rnd in gs and h.first_dna().value == gs[0]
 
   def stage2(self, v, vj, tj):
     """A partially decoded value used as a template for the rest (no filter)."""
@@ -1093,12 +1441,22 @@ class C13(Prop):
         return '%s: impl=%s model=%s' % (key, json.dumps(a[key])[:300], json.dumps(b[key])[:300])
     if len(a['dnas']) != len(b['dnas']):
       return 'number of DNAs: impl=%d model=%d' % (len(a['dnas']), len(b['dnas']))
+    # A hook whose custom_encode raises something else than ValueError / KeyError (here: NotImplementedError of
+    # a CustomHyper without custom_encode) aborts the whole `encode` instead of counting as "no match"; the
+    # model knows only "the hook cannot encode". Such hooks violate the contract: `enc` is not compared.
+    aborting = any('encode-raises' in kinds for kinds in (impl_out['obs'].get('hook_violations') or {}).values())
     for i, (x, y) in enumerate(zip(a['dnas'], b['dnas'])):
+      if aborting:
+        x, y = dict(x, enc=None), dict(y, enc=None)
       if x != y:
         return 'dna #%d: impl=%s model=%s' % (i, json.dumps(x)[:400], json.dumps(y)[:400])
     for i, (x, y) in enumerate(zip(a['values'], b['values'])):
+      if aborting:
+        continue
       if x is not None and x != y:
         return 'value #%d: impl=%s model=%s' % (i, json.dumps(x)[:400], json.dumps(y)[:400])
+    if 'trace' in a and a['trace'] != b.get('trace'):
+      return 'pg.hyper.trace: impl=%s model=%s' % (json.dumps(a['trace'])[:400], json.dumps(b.get('trace'))[:400])
     obs = impl_out['obs']
     if 'iter' in obs:
       n = obs['n_all']
@@ -1119,10 +1477,20 @@ class C13(Prop):
                       'accepted at construction (some valid DNA then decodes to a value the field spec rejects)'}
     if not obs['unchanged']:
       return {'signature': 'template-modified', 'what': '; '.join(obs['notes'][:3])}
+    if not obs.get('hook_sweeps_ok', True):
+      return {'signature': 'custom-sweep-hooks', 'what': 'first_dna / next_dna / random_dna through the DNASpec '
+              'do not reproduce the hooks of the custom hyper'}
+    if obs.get('hook_violations'):
+      # The theorems assume the hooks' contract (HooksLawful / HooksPlain); these user hooks violate it on
+      # their own genomes: whatever fails below is hypothesis-violating, not a pyglove defect.
+      return None
     distinct = head_distinct(t, W)
+    ps = prims(t, W)
     for rec, o in zip(model['dnas'], obs['per_dna']):
       if not rec['valid']:
         continue
+      if not in_hook_range(ps, W, rec['dna']):
+        continue        # valid for `validate` (any str-valued DNA) but outside the hooks' own range (`W.dom`)
       d = json.dumps(rec['dna'])
       if rec['dec'][0] != 'ok':
         return {'signature': 'decode-fails-on-valid-dna:' + o.get('dec_error', '?'),
@@ -1150,6 +1518,13 @@ class C13(Prop):
       if not o['materialize_equal']:
         return {'signature': 'materialize-differs', 'what': 'pg.materialize differs from decode for %s (%s)'
                 % (d, o.get('materialize_error'))}
+      if rec['enc'] and rec['enc'][0] == 'ok' and rec['enc'][1] != rec['dna'] and rec['strict']:
+        # first-match rule: wherever the re-encoded DNA first differs, it names an *earlier* candidate
+        fd = first_diff(rec['dna'], rec['enc'][1])
+        if not (fd and fd[0] and fd[1] and fd[0][0] == 'i' and fd[1][0] == 'i' and fd[1][1] < fd[0][1]):
+          return {'signature': 'first-match-rule',
+                  'what': 'encode(decode(%s)) = %s: the first difference %s is not an earlier candidate index'
+                  % (d, json.dumps(rec['enc'][1])[:200], json.dumps(fd))}
       if distinct and not (rec['enc'] and rec['enc'][0] == 'ok' and rec['enc'][1] == rec['dna'] and o['roundtrip']):
         sig = 'encode-decode-not-identity'
         if W is not None:
@@ -1158,6 +1533,11 @@ class C13(Prop):
           sig = 'stray-dna-value-lost'      # F85: validate / decode ignore the value, encode cannot reproduce it
         return {'signature': sig,
                 'what': 'encode(decode(%s)) = %s (%s)' % (d, json.dumps(rec['enc'])[:200], o.get('enc_error'))}
+    if obs.get('trace_equal') is False:
+      return {'signature': 'trace-differs-from-template',
+              'what': 'pg.hyper.trace(fn, where) / ctx.apply(dna) over the placeholders %s does not give the dna_spec '
+                      '/ values of pg.template([...], where) for DNA %s' % (json.dumps(case['trace'])[:200],
+                                                                          json.dumps(case['trace_dna'])[:120])}
     if 'iter_error' in obs:
       return {'signature': 'iter-raises', 'what': 'pg.iter raised %s' % obs['iter_error']}
     if 'iter_count' in obs:
@@ -1184,12 +1564,16 @@ class C13(Prop):
     if not bounds_ok(t):
       h.append('straddles-zero-bound')
     h.append('head-distinct:%s' % head_distinct(t, W))
+    for name, kinds in (out.get('obs', {}).get('hook_violations') or {}).items():
+      h.append('HYPOTHESIS-VIOLATING hooks %s: %s' % (name, ','.join(kinds)))
     if out.get('construct') != 'ok':
       return h
     m = out['model']
     h.append('prims:%s' % min(m['count'], 5))
     h.append('size:' + ('inf' if m['size'] is None else '1' if m['size'] == 1 else '<=10' if m['size'] <= 10
                         else '<=100' if m['size'] <= 100 else '>100'))
+    if 'trace' in m:
+      h.append('dynamic-evaluation-traced')
     if any(r.get('stage2') and r['stage2']['decs'] for r in m['dnas']):
       h.append('two-stage-decoded')
     if any(r.get('stage2') and r['stage2']['spec'] != ['space', []] for r in m['dnas']):
